@@ -1381,6 +1381,57 @@ class Sym:
                     return done + [(s1, ("ctor", OK, (unit,)) if is_try else unit) for s1 in live]
                 finally:
                     self.applying -= 1
+        if (trait_callee or callee) == "core::iter::traits::iterator::Iterator::try_for_each" and len(args) == 2 and self.callable_here(args[1]) and self.applying <= 6:
+            # over a collection that is not a literal: the loop `for x in IT { f(x)? }`, one symbolic iteration
+            it = args[0]
+            maps = []
+            while it[0] == "call" and it[1].endswith("Iterator::map") and len(it[2]) == 2 and self.callable_here(it[2][1]):
+                maps.insert(0, it[2][1])
+                it = it[2][0]
+            NEXT_ = "core::iter::traits::iterator::Iterator::next"
+            lsite = self.site(n, st) + "#each"
+            fake = {"k": "mcall", "callee": NEXT_, "sp": n.get("sp"), "pv": n.get("pv"), "targs": []}
+            nx = ("call", NEXT_, (it,), lsite)
+            self.drop_creation(args[1], st)
+            for m in maps:
+                self.drop_creation(m, st)
+            st.trace = st.trace + (("enter", lsite, ()),)
+            st.loops += 1
+            st.loop_depth += 1
+            if self.is_effect(NEXT_, [it], fake, st):
+                self.add_effect(st, "call", NEXT_, [it], fake, nx)
+            out = []
+            unit = ("tuple", ())
+            self.applying += 1
+            try:
+                for s1, some in self.test_variant(nx, SOME, st):
+                    if not some:
+                        s1.trace = s1.trace + (("break", lsite, ()),)
+                        s1.loop_depth -= 1
+                        out.append((s1, ("ctor", OK, (unit,))))
+                        continue
+                    vals = [(s1, self.proj(nx, SOME, 0))]
+                    for m in maps:
+                        vals = [(s3, t) for s2, v in vals if s2.done is None for s3, t in self.call_value(m, [v], s2, n)] + [(s2, None) for s2, v in vals if s2.done is not None]
+                    for s2, v in vals:
+                        if s2.done is not None:
+                            out.append((s2, None))
+                            continue
+                        for s3, t in self.call_value(args[1], [v], s2, n):
+                            if s3.done is not None:
+                                out.append((s3, None))
+                                continue
+                            for s4, ok in self.test_variant(t, OK, s3):
+                                s4.loop_depth -= 1
+                                if ok:
+                                    s4.trace = s4.trace + (("iter", lsite, ()),)
+                                    out.append((s4, ("ctor", OK, (unit,))))
+                                else:
+                                    s4.trace = s4.trace + (("abort", lsite, ()),)      # left early with the callback's error
+                                    out.append((s4, ("ctor", ERR, (self.proj(t, ERR, 0),))))
+            finally:
+                self.applying -= 1
+            return out
         if (trait_callee or callee) == "core::iter::traits::iterator::Iterator::next" and len(args) == 1 and self.applying <= 6:
             it = args[0]
             while it[0] == "call" and len(it[2]) == 1 and it[1].split("::")[-1] in ("into_iter", "by_ref", "borrow_mut", "deref_mut"):
